@@ -2139,7 +2139,7 @@ namespace adept {
     // Is the array contiguous in memory?
     bool is_contiguous() const {
       Index offset_expected = 1;
-      for (int i = Rank-1; i >= 0; ++i) {
+      for (int i = Rank-1; i >= 0; --i) {
 	if (offset_[i] != offset_expected) {
 	  return false;
 	}
